@@ -568,5 +568,232 @@ func extractC07(c *Ctx) error {
 	c.Info("flush_on", flush)
 	c.Info("receipt_gate", gate)
 	c.Info("relay_success_means", flag)
+	return extractC07Evidence(c)
+}
+
+// resolve an expression through the single-assignment locals of a function (`x, err := rhs` binds x
+// to rhs when rhs is one call): identifiers are replaced by what they were defined as
+func c07resolve(c *Ctx, locals map[string]ast.Expr, e ast.Expr, depth int) string {
+	if depth > 8 {
+		return "?" + c.Src(e)
+	}
+	switch v := e.(type) {
+	case *ast.Ident:
+		if r, ok := locals[v.Name]; ok {
+			return c07resolve(c, locals, r, depth+1)
+		}
+		return v.Name
+	case *ast.SelectorExpr:
+		return c07resolve(c, locals, v.X, depth+1) + "." + v.Sel.Name
+	case *ast.CallExpr:
+		as := make([]string, len(v.Args))
+		for i, a := range v.Args {
+			as[i] = c07resolve(c, locals, a, depth+1)
+		}
+		return c07resolve(c, locals, v.Fun, depth+1) + "(" + strings.Join(as, ", ") + ")"
+	}
+	return strings.Join(strings.Fields(c.Src(e)), " ")
+}
+
+// second round: the seam between evidence consensus and the attester.  What the bytes by which the
+// validators' reports are grouped cover (TxExecutedProof.BytesToHash must be the WHOLE serialised
+// transaction followed by the WHOLE serialised receipt; anything else is reported through the
+// generated definitions, so that the proofs that need the coverage break), how the proof's two
+// byte fields are decoded, who is handed to the attester, and the wrapper's handling of "nothing
+// agreed on".
+func extractC07Evidence(c *Ctx) error {
+	pf, err := c.Parse("x/evm/types/proofs_hash_bytes.go")
+	if err != nil {
+		return err
+	}
+	bth := FindFunc(pf, "TxExecutedProof", "BytesToHash")
+	if bth == nil {
+		return fmt.Errorf("TxExecutedProof.BytesToHash not found")
+	}
+	locals := map[string]ast.Expr{}
+	ast.Inspect(bth.Body, func(n ast.Node) bool {
+		as, ok := n.(*ast.AssignStmt)
+		if !ok || as.Tok != token.DEFINE || len(as.Rhs) != 1 || len(as.Lhs) == 0 {
+			return true
+		}
+		if id, ok := as.Lhs[0].(*ast.Ident); ok && id.Name != "_" && id.Name != "err" {
+			if _, dup := locals[id.Name]; dup {
+				locals[id.Name] = &ast.Ident{Name: "?reassigned:" + id.Name}
+			} else {
+				locals[id.Name] = as.Rhs[0]
+			}
+		}
+		return true
+	})
+	// plain assignments to a local make it unknown
+	ast.Inspect(bth.Body, func(n ast.Node) bool {
+		if as, ok := n.(*ast.AssignStmt); ok && as.Tok == token.ASSIGN {
+			for _, l := range as.Lhs {
+				if id, ok := l.(*ast.Ident); ok && id.Name != "err" && id.Name != "_" {
+					locals[id.Name] = &ast.Ident{Name: "?reassigned:" + id.Name}
+				}
+			}
+		}
+		return true
+	})
+	// the statements: the last one returns the bytes with a receipt; an `if h.SerializedReceipt == nil { return ... }` the bytes without
+	var parts []string
+	without := "?"
+	nReturnsOK := 0
+	for _, st := range bth.Body.List {
+		switch v := st.(type) {
+		case *ast.IfStmt:
+			if c.Src(v.Cond) == "h.SerializedReceipt == nil" && len(v.Body.List) >= 1 {
+				if rs, ok := v.Body.List[len(v.Body.List)-1].(*ast.ReturnStmt); ok && len(rs.Results) >= 1 {
+					without = c07resolve(c, locals, rs.Results[0], 0)
+				}
+			}
+		case *ast.ReturnStmt:
+			if len(v.Results) == 2 && c.Src(v.Results[1]) == "nil" {
+				nReturnsOK++
+				r := v.Results[0]
+				if ce, ok := r.(*ast.CallExpr); ok && c.Src(ce.Fun) == "slices.Concat" {
+					for _, a := range ce.Args {
+						parts = append(parts, c07resolve(c, locals, a, 0))
+					}
+				} else {
+					parts = append(parts, c07resolve(c, locals, r, 0))
+				}
+			}
+		}
+	}
+	if nReturnsOK != 1 {
+		parts = append(parts, fmt.Sprintf("?%d top-level returns of bytes", nReturnsOK))
+	}
+	const fullTx, fullRc = "h.GetTX().MarshalBinary()", "h.GetReceipt().MarshalBinary()"
+	coversTx := len(parts) >= 1 && parts[0] == fullTx && without == fullTx
+	coversRc := len(parts) == 2 && parts[0] == fullTx && parts[1] == fullRc
+	c.P("(* x/evm/types/proofs_hash_bytes.go TxExecutedProof.BytesToHash: the bytes the reports are grouped by, resolved to the proof's own parts *)")
+	c.P("Definition bth_tx_proof_parts : list string := %s.", CoqStrList(parts))
+	c.P("Definition bth_without_receipt : string := %s.", CoqStr(without))
+	c.P("Definition bth_covers_full_tx : bool := %v.", coversTx)
+	c.P("Definition bth_covers_full_receipt : bool := %v.", coversRc)
+	c.Info("bth_tx_proof_parts", parts)
+	c.Info("bth_without_receipt", without)
+	// GetTX / GetReceipt decode exactly the two byte fields
+	dec := func(fn, want string) string {
+		d := FindFunc(pf, "TxExecutedProof", fn)
+		if d == nil {
+			return "?missing"
+		}
+		if cs := Calls(d.Body, "UnmarshalBinary"); len(cs) == 1 && c.Src(cs[0]) == want {
+			return want
+		}
+		return "?" + strings.Join(strings.Fields(c.Src(d.Body)), " ")
+	}
+	c.P("Definition get_tx_decodes : string := %s.", CoqStr(dec("GetTX", "tx.UnmarshalBinary(h.SerializedTX)")))
+	c.P("Definition get_receipt_decodes : string := %s.", CoqStr(dec("GetReceipt", "receipt.UnmarshalBinary(h.SerializedReceipt)")))
+	eb := FindFunc(pf, "SmartContractExecutionErrorProof", "BytesToHash")
+	ebs := "?missing"
+	if eb != nil && len(eb.Body.List) == 1 {
+		if rs, ok := eb.Body.List[0].(*ast.ReturnStmt); ok && len(rs.Results) == 2 {
+			ebs = c.Src(rs.Results[0])
+		}
+	}
+	c.P("Definition bth_error_proof : string := %s.", CoqStr(ebs))
+
+	// util/libcons VerifyEvidence: the winner handed out is the evidence that opened the winning group
+	lf, err := c.Parse("util/libcons/consensus.go")
+	if err != nil {
+		return err
+	}
+	ve := FindFunc(lf, "ConsensusChecker", "VerifyEvidence")
+	if ve == nil {
+		return fmt.Errorf("ConsensusChecker.VerifyEvidence not found")
+	}
+	rep := "?"
+	ast.Inspect(ve.Body, func(n ast.Node) bool {
+		is, ok := n.(*ast.IfStmt)
+		if ok && c.Src(is.Cond) == "val.evidence == nil" && len(is.Body.List) == 1 && c.Src(is.Body.List[0]) == "val.evidence = hashable" && is.Else == nil {
+			rep = "first evidence of the group"
+		}
+		return true
+	})
+	vsrc := c.Src(ve.Body)
+	if strings.Count(vsrc, "val.evidence = ") != 1 || strings.Count(vsrc, "result.Winner =") != 1 || !strings.Contains(vsrc, "result.Winner = group.evidence") {
+		rep = "?winner is not simply the group's stored evidence"
+	}
+	c.P("(* util/libcons/consensus.go VerifyEvidence: result.Winner *)")
+	c.P("Definition winner_is : string := %s.", CoqStr(rep))
+
+	// attestMessageWrapper: no evidence -> nil; consensus not achieved -> nil; other errors returned; the winner goes to the attester
+	af, err := c.Parse("x/evm/keeper/attest.go")
+	if err != nil {
+		return err
+	}
+	w := FindFunc(af, "Keeper", "attestMessageWrapper")
+	if w == nil {
+		return fmt.Errorf("attestMessageWrapper not found")
+	}
+	var seam []string
+	if len(w.Body.List) > 0 {
+		if is, ok := w.Body.List[0].(*ast.IfStmt); ok && c.Src(is.Cond) == "len(msg.GetEvidence()) == 0" && len(is.Body.List) == 1 && c.Src(is.Body.List[0]) == "return nil" {
+			seam = append(seam, "no evidence => nil")
+		}
+	}
+	ws := c.Src(w.Body)
+	if cs := Calls(w.Body, "VerifyEvidence"); len(cs) == 1 && strings.HasPrefix(c.Src(cs[0]), "k.consensusChecker.VerifyEvidence(ctx,") && len(cs[0].Args) == 2 &&
+		strings.HasPrefix(c.Src(cs[0].Args[1]), "slice.Map(msg.GetEvidence(), func(evidence *consensustypes.Evidence) libcons.Evidence {") &&
+		len(Calls(cs[0].Args[1], "Map")) == 1 {
+		if fl, ok := cs[0].Args[1].(*ast.CallExpr).Args[1].(*ast.FuncLit); ok && len(fl.Body.List) == 1 && c.Src(fl.Body.List[0]) == "return evidence" {
+			seam = append(seam, "VerifyEvidence over all stored evidence")
+		}
+	}
+	ast.Inspect(w.Body, func(n ast.Node) bool {
+		is, ok := n.(*ast.IfStmt)
+		if !ok || c.Src(is.Cond) != "err != nil" || len(is.Body.List) != 2 {
+			return true
+		}
+		inner, ok1 := is.Body.List[0].(*ast.IfStmt)
+		ret, ok2 := is.Body.List[1].(*ast.ReturnStmt)
+		if ok1 && ok2 && c.Src(inner.Cond) == "errors.Is(err, ErrConsensusNotAchieved)" && len(inner.Body.List) > 0 &&
+			c.Src(inner.Body.List[len(inner.Body.List)-1]) == "return nil" && c.Src(ret) == "return err" {
+			seam = append(seam, "consensus not achieved => nil", "other error => returned")
+		}
+		return true
+	})
+	if strings.Contains(ws, "return fn(cacheCtx, q, msg, result.Winner)") && strings.Count(ws, "fn(") == 1 {
+		seam = append(seam, "attester gets result.Winner")
+	}
+	c.P("(* x/evm/keeper/attest.go attestMessageWrapper, up to the call of the attester *)")
+	c.P("Definition evidence_seam : list string := %s.", CoqStrList(seam))
+	// the snapshot the votes are weighed with
+	kf, err := c.Parse("x/evm/keeper/keeper.go")
+	if err != nil {
+		return err
+	}
+	prov := "?"
+	ast.Inspect(kf, func(n ast.Node) bool {
+		as, ok := n.(*ast.AssignStmt)
+		if ok && len(as.Lhs) == 1 && len(as.Rhs) == 1 && c.Src(as.Lhs[0]) == "k.consensusChecker" {
+			prov = c.Src(as.Rhs[0])
+		}
+		return true
+	})
+	c.P("Definition consensus_checker : string := %s.", CoqStr(prov))
+	// QueuedSignedMessage.AddEvidence: one entry per validator, the proof replaced in place
+	tf, err := c.Parse("x/consensus/types/consensus.go")
+	if err != nil {
+		return err
+	}
+	ae := FindFunc(tf, "QueuedSignedMessage", "AddEvidence")
+	shape := "?"
+	if ae != nil {
+		src := strings.Join(strings.Fields(c.Src(ae.Body)), " ")
+		if strings.Contains(src, "for i := range q.Evidence { if q.Evidence[i].ValAddress.Equals(data.ValAddress) { q.Evidence[i].Proof = data.Proof return } }") &&
+			strings.HasSuffix(src, "q.Evidence = append(q.Evidence, &data) }") {
+			shape = "replace the validator's proof in place, else append"
+		} else {
+			shape = "?" + src
+		}
+	}
+	c.P("Definition add_evidence_shape : string := %s.", CoqStr(shape))
+	c.Info("evidence_seam", seam)
+	c.Info("winner_is", rep)
 	return nil
 }
